@@ -330,6 +330,8 @@ func inlinable(fd *ast.FuncDecl) bool {
 	return ok
 }
 
+var calleeBoxed = map[*ast.FuncDecl]map[types.Object]bool{}
+
 // inlineCall executes the callee body in place (single path expected).
 func (c *Ctx) inlineCall(st *State, call *ast.CallExpr, fi *FuncInfo, recv *Val, args []Val) []Val {
 	savedInfo, savedPkg, savedOrd, savedLoop, savedPrefix, savedCalls := c.info, c.pkg, c.ord, c.loopID, c.prefix, c.callOrd
@@ -343,18 +345,39 @@ func (c *Ctx) inlineCall(st *State, call *ast.CallExpr, fi *FuncInfo, recv *Val,
 		c.info, c.pkg, c.ord, c.loopID, c.prefix, c.callOrd = savedInfo, savedPkg, savedOrd, savedLoop, savedPrefix, savedCalls
 	}()
 
-	// bind receiver and parameters
+	// bind receiver and parameters (a parameter whose address is taken in the callee lives in a fresh cell)
 	fd := fi.Decl
+	cb, okb := calleeBoxed[fd]
+	if !okb {
+		cb = map[types.Object]bool{}
+		findBoxed(fd.Body, c.info, cb)
+		calleeBoxed[fd] = cb
+	}
+	for o := range cb {
+		c.boxed[o] = true
+	}
+	bindParam := func(o *types.Var, v Val) {
+		delete(st.cells, o)
+		delete(st.vars, o)
+		v = Val{T: v.T, S: v.S, GT: o.Type()}
+		if cb[o] {
+			ref := c.alloc(st)
+			st.cells[o] = ref
+			c.cellWrite(st, ref, o.Type(), v)
+			return
+		}
+		st.vars[o] = v
+	}
 	if fd.Recv != nil && len(fd.Recv.List) > 0 && len(fd.Recv.List[0].Names) > 0 && recv != nil {
 		if o, ok := c.info.Defs[fd.Recv.List[0].Names[0]].(*types.Var); ok {
-			st.vars[o] = Val{T: recv.T, S: recv.S, GT: o.Type()}
+			bindParam(o, *recv)
 		}
 	}
 	i := 0
 	for _, fld := range fd.Type.Params.List {
 		for _, n := range fld.Names {
 			if o, ok := c.info.Defs[n].(*types.Var); ok && i < len(args) {
-				st.vars[o] = Val{T: args[i].T, S: args[i].S, GT: o.Type()}
+				bindParam(o, args[i])
 			}
 			i++
 		}
@@ -722,6 +745,11 @@ func (c *Ctx) modularCall(st *State, call *ast.CallExpr, fn *types.Func, ct *Fun
 	for i, en := range ct.Ensures {
 		t, err := env2.trBool(en.Expr)
 		if err != nil {
+			if strings.Contains(err.Error(), "unknown identifier") && !ct.Extern {
+				// a postcondition stated over the callee's locals is checked on the callee only
+				c.note(fmt.Sprintf("ensures %d of %s mentions callee locals: not assumed at call sites", i+1, shortKey(fn)))
+				continue
+			}
 			c.abort("contract of %s: ensures %d: %v", fn.FullName(), i+1, err)
 			return results
 		}
